@@ -400,20 +400,24 @@ def drive(cfg, observers=True, post_calls=3):
 # cost alphabet (DESIGN section 2)
 # ---------------------------------------------------------------------------
 COSTS_ALL = [
-    (1, 1, 2, 2),
+    (1, 1, 2, 2),                                   # default
+    # one-parameter neighbours of the default (a table or period cached on a
+    # key that omits one cost is only visible between such neighbours)
+    (3, 1, 2, 2), (1, 3, 2, 2), (1, 1, 5, 2), (1, 1, 2, 5),
+    # uf != ub in both directions, wd != rd in both directions
     (1, 5, 1, 1), (5, 1, 1, 1), (2, 1, 1, 5), (1, 2, 3, 1), (3, 1, 7, 2),
-    (1, 3, 0, 0),
-    (1, 1, 5, 0), (1, 1, 0, 5), (1, 1, 3, 4),
-    (1, 1, 10, 10), (1, 1, 20, 20),
-    (0.5, 1, 1.5, 0.25),
+    (1, 3, 0, 0),                                   # free disk
+    (1, 1, 5, 0), (1, 1, 0, 5), (1, 1, 3, 4),       # asymmetric disk
+    (1, 1, 10, 10), (1, 1, 20, 20),                 # dominant disk
+    (0.5, 1, 1.5, 0.25), (1.5, 2, 3, 1),            # dyadic non-integers
 ]
-COSTS_QUICK = [COSTS_ALL[i] for i in (0, 1, 3, 5, 6, 7, 8, 10)]
+COSTS_QUICK = [COSTS_ALL[i] for i in (0, 1, 3, 4, 5, 6, 7, 10, 11, 14, 16)]
 
 
 def box(N_max, tier, classes=None, passes_max=None, costs=None):
     """The configuration box B(N) of DESIGN section 2 as a deterministic list."""
     quick = tier == "quick"
-    P = 5 if quick else 8
+    P = 9 if quick else 13
     R = 4 if quick else 6
     D = 3 if quick else 5
     K = passes_max if passes_max is not None else (3 if quick else 5)
@@ -447,7 +451,7 @@ def box(N_max, tier, classes=None, passes_max=None, costs=None):
                     out.append(Config("Mixed", (s, st), n))
         if want("TwoLevel"):
             for period in range(1, P + 1):
-                for bs in range(0, 5):
+                for bs in (0, 1, 2, 4):
                     for st in ("RAM", "DISK"):
                         for traj in ("maximum", "revolve"):
                             for k in ((1, K) if (quick and n > 8) else
@@ -467,15 +471,54 @@ def box(N_max, tier, classes=None, passes_max=None, costs=None):
     return out
 
 
-def run_box(configs, reducer, jobs=None, observers=True):
-    """Drive every configuration in parallel (static partition).  `reducer`
-    maps a Run to a small picklable summary."""
-    def worker(idxs):
-        return [(i, reducer(drive(configs[i], observers=observers)))
-                for i in idxs]
-    parts = common.pmap(worker, len(configs), jobs)
-    out = [None] * len(configs)
+def group_key(cfg):
+    """Configurations that differ only in a parameter a careless memo key
+    could omit (cost vector, RAM/DISK split, storage, trajectory, passes) form
+    one group: they are driven by the same worker, back to back."""
+    if cfg.cls == "HRevolve":
+        return (cfg.cls, cfg.N, cfg.params[:2])
+    if cfg.cls in REVOLVE_FAMILY:
+        return (cfg.cls, cfg.N, cfg.params[:1])
+    if cfg.cls == "Multistage":      # all RAM/DISK splits of one total
+        return (cfg.cls, cfg.N, cfg.params[0] + cfg.params[1], cfg.params[2])
+    if cfg.cls == "Mixed":           # both storages
+        return (cfg.cls, cfg.N, cfg.params[0])
+    if cfg.cls == "TwoLevel":        # units / storage / trajectory variants
+        return (cfg.cls, cfg.N, cfg.params[0])
+    return (cfg.cls, cfg.N, cfg.params)
+
+
+def run_box(configs, reducer, jobs=None, observers=True, orders=1):
+    """Drive every configuration in parallel.  Static, deterministic
+    partition: groups (see group_key) are dealt round-robin to the workers.
+    `reducer` maps a Run to a small picklable summary.
+
+    orders=1: returns one summary per configuration.
+    orders=2: every group with more than one member is driven a second time in
+    reverse order (same process, right after the first time), so that a result
+    that depends on which sibling came first is seen; returns a list of
+    summaries per configuration."""
+    groups = {}
+    for i, c in enumerate(configs):
+        groups.setdefault(group_key(c), []).append(i)
+    glist = list(groups.values())
+
+    def worker(gidx):
+        out = []
+        for g in gidx:
+            idxs = glist[g]
+            for i in idxs:
+                out.append((i, reducer(drive(configs[i], observers=observers))))
+            if orders > 1 and len(idxs) > 1:
+                for i in reversed(idxs):
+                    out.append((i, reducer(drive(configs[i],
+                                                 observers=observers))))
+        return out
+    parts = common.pmap(worker, len(glist), jobs)
+    out = [[] for _ in configs]
     for part in parts:
         for i, s in part:
-            out[i] = s
+            out[i].append(s)
+    if orders == 1:
+        return [o[0] for o in out]
     return out
